@@ -30,7 +30,8 @@ def req_for(reqs, tag, key):
 class Render:
     def __init__(self):
         self.wl = {}        # tuple(words) -> name
-        self.kinds = {}     # json args -> name
+        self.kinds = {}     # json args -> index in the table `kinds` (None: not modelled)
+        self.kdefs = []
         self.defs = []
 
     def words(self, ws):
@@ -71,10 +72,11 @@ class Render:
             if lang is None:
                 self.kinds[key] = None
             else:
-                name = "k_%d" % len(self.kinds)
+                name = "k_%d" % len(self.kdefs)
                 body = "; ".join("[%s]" % "; ".join(self.slot(sl) for sl in alt) for alt in lang)
                 self.defs.append("(* fake %s *)\nDefinition %s : klang := [%s]." % (key.replace("*)", "* )"), name, body))
-                self.kinds[key] = name
+                self.kinds[key] = len(self.kdefs)
+                self.kdefs.append(name)
         return self.kinds[key]
 
     def tm(self, node, variables, depth=0):
@@ -93,7 +95,7 @@ class Render:
             al = a if isinstance(a, list) else [a]
             if op == "fake":
                 k = self.kind(a)
-                return "(TFake %s)" % k if k else "TTop"
+                return "(TFake %d)" % k if k is not None else "TTop"
             if op == "var":
                 if not isinstance(a, str):
                     return "TTop"
@@ -182,9 +184,10 @@ def render():
     body.append("Definition scenario_leaves : list (bytes * list nat) := [")
     body.append(";\n".join("  (bs %s, [%s])" % (q(f), "; ".join(map(str, ix))) for f, ix in files))
     body.append("].")
-    text = "\n".join(out + R.defs + [""] + body) + "\n"
+    kt = ["", "Definition kinds : list klang := [%s]." % "; ".join(R.kdefs)]
+    text = "\n".join(out + R.defs + kt + [""] + body) + "\n"
     stats["distinct_leaves"] = len(distinct)
-    stats["kinds"] = len([k for k in R.kinds.values() if k])
+    stats["kinds"] = len(R.kdefs)
     stats["requirement_rows"] = len(used_reqs)
     return text, stats
 
